@@ -261,6 +261,39 @@ Definition is_mut (o : pop) : bool :=
 (* the observation of operation [o] after history [h] on one instance *)
 Definition pobserve (legacy : bool) (c : pcfg) (h : list pop) (o : pop) : pobs :=
   snd (pstep legacy c (prun legacy c h pinit) o).
+
+(* --- specification: the cache-free reference object (used by the theorems) --- *)
+(* what is observable of a state: the normalisation value and the three arrays a read
+   would return (cached or not) *)
+Record pview := { v_nv : T; v_p : list T; v_e : list T; v_d : option (list T) }.
+Definition view (c : pcfg) (s : pst) : pview :=
+  {| v_nv := nv s;
+     v_p := match cp s with Some v => v | None => p_PR c end;
+     v_e := match ce s with Some v => v | None => p_ER c end;
+     v_d := match cd s with Some d => Some d | None => p_DR c end |}.
+
+(* the cache-free reference object: no lazy attributes, all three arrays always rescaled *)
+Definition vscale (c : pcfg) (v : pview) (f : T -> T) : pview :=
+  {| v_nv := v_nv v; v_p := map f (v_p v); v_e := map f (v_e v);
+     v_d := match p_DR c with None => v_d v | Some _ => option_map (map f) (v_d v) end |}.
+Definition vstep (c : pcfg) (v : pview) (o : pop) : pview * pobs :=
+  match o with
+  | PRead AProf => (v, OArr (v_p v))
+  | PRead AErr => (v, OArr (v_e v))
+  | PRead AData => (v, match v_d v with Some d => OArr d | None => ORaise 3 end)
+  | PReadNV => (v, OScalar (v_nv v))
+  | PNorm sum =>
+      let n := norm_of sum (v_p v) in
+      if is_zero n then (v, ONone)
+      else (vscale c {| v_nv := mul (v_nv v) n; v_p := v_p v; v_e := v_e v; v_d := v_d v |}
+                   (fun x => div x n), ONone)
+  | PUnnorm =>
+      let k := v_nv v in
+      let v1 := vscale c v (fun x => mul x k) in
+      ({| v_nv := one; v_p := v_p v1; v_e := v_e v1; v_d := v_d v1 |}, ONone)
+  end.
+Definition vrun (c : pcfg) (h : list pop) (v : pview) : pview :=
+  fold_left (fun v o => fst (vstep c v o)) h v.
 End Prof.
 
 (* ------------------------------------------------------------------------- *)
@@ -428,6 +461,19 @@ Fixpoint aspec (p : params) (h : list aop) : list (outcome V) :=
   | ARead a :: h' => Val (afresh p a) :: aspec p h'
   end.
 Definition ainit : ast := {| a_params := []; a_cache := empty_cache |}.
+
+(* --- specification helpers (used by the theorems) --- *)
+(* assignments only name declared parameters (index < number of constructor parameters) *)
+Definition wf_op (n : nat) (o : aop) : Prop :=
+  match o with ASet i _ _ => (i < n)%nat | ARead _ => True end.
+(* a constructed aperture (all parameters assigned, nothing read yet) *)
+Definition aconstructed (vs : list V) : ast := {| a_params := map Some vs; a_cache := empty_cache |}.
+
+(* the constructor itself: first assignments never reset anything and lead to [aconstructed] *)
+Fixpoint ctor_ops (i : nat) (vs : list V) : list (aop) :=
+  match vs with [] => [] | v :: r => ASet i v true :: ctor_ops (S i) r end.
+Definition afinal (cl : acls) (s : ast) (h : list (aop)) : ast :=
+  fold_left (fun s o => fst (astep cl s o)) h s.
 End Aper.
 
 (* ------------------------------------------------------------------------- *)
